@@ -175,7 +175,13 @@ def run_history(history):
                 p, f = apply_reform(p, f, call.get("reform"))
                 df = build_population(call["pop"], d, p)
                 data = make_data(df, call["form"])
-                targets = list(DEFAULT_TARGETS) if call["targets"] == "default" else list(call["targets"])
+                if call["targets"] == "default":
+                    targets = list(DEFAULT_TARGETS)
+                elif call["targets"] == "feasible":  # before 2015: the computable part of the default targets (+ a few inner nodes)
+                    targets = env.feasible_targets(f, list(df.columns), data=df, params=copy.deepcopy(p),
+                                                   candidates=[*DEFAULT_TARGETS, "arbeitsl_geld_2_eink_anr_frei_m", "zu_verst_eink_y_sn", "wohngeld_m_hh"])
+                else:
+                    targets = list(call["targets"])
                 # snapshots of caller-owned arguments
                 d_before = data_digest(data)
                 d_ids = {k: id(v) for k, v in data.items()} if isinstance(data, dict) else None
